@@ -119,6 +119,22 @@ func (h *counterHistory) findCounterFor(ourKeyID, theirKeyID uint32) *keyPairCou
 	return c
 }
 
+// forgetCountersFor drops the counters of key pairs that can no longer be used
+func (h *counterHistory) forgetCountersFor(retired func(*keyPairCounter) bool) {
+	kept := h.counters[:0]
+	for _, c := range h.counters {
+		if retired(c) {
+			c.wipe()
+		} else {
+			kept = append(kept, c)
+		}
+	}
+	for i := len(kept); i < len(h.counters); i++ {
+		h.counters[i] = nil
+	}
+	h.counters = kept
+}
+
 type keyManagementContext struct {
 	ourKeyID, theirKeyID                        uint32
 	ourCurrentDHKeys, ourPreviousDHKeys         dhKeyPair
@@ -178,6 +194,9 @@ func (k *keyManagementContext) generateNewDHKeyPair(randomness io.Reader) error 
 func (k *keyManagementContext) revealMACKeysForOurPreviousKeyID() {
 	keys := k.macKeyHistory.forgetMACKeysForOurKey(k.ourKeyID - 1)
 	k.oldMACKeys = append(k.oldMACKeys, keys...)
+
+	retiredKeyID := k.ourKeyID - 1
+	k.counterHistory.forgetCountersFor(func(c *keyPairCounter) bool { return c.ourKeyID == retiredKeyID })
 }
 
 func (c *Conversation) rotateKeys(dataMessage dataMsg) error {
@@ -200,6 +219,9 @@ func (k *keyManagementContext) rotateOurKeys(recipientKeyID uint32, randomness i
 func (k *keyManagementContext) revealMACKeysForTheirPreviousKeyID() {
 	keys := k.macKeyHistory.forgetMACKeysForTheirKey(k.theirKeyID - 1)
 	k.oldMACKeys = append(k.oldMACKeys, keys...)
+
+	retiredKeyID := k.theirKeyID - 1
+	k.counterHistory.forgetCountersFor(func(c *keyPairCounter) bool { return c.theirKeyID == retiredKeyID })
 }
 
 func (k *keyManagementContext) rotateTheirKey(senderKeyID uint32, pubDHKey *big.Int) {
